@@ -74,7 +74,7 @@ def _nontrivial(ln):
     if k == "pa":
         return e["v"] == 1
     if k == "wc":
-        return e["coded"] == 1 and (e["nf"] > 1 or e["e"]["st"] == 2)
+        return e["coded"] == 1 and e["fsz"] >= 2 and e["er"] == e["dr"] and (e["nf"] > 1 or e["e"]["st"] == 2)
     if k == "di":
         return e["st"] == 2 or any(abs(v) > 4 for v in e["ix"][1:])
     return k == "dp"
@@ -274,7 +274,10 @@ def run(ctx):
     ctx.notes["nlsf_encode_inputs_outside_arithmetic_domain"] = n_ne_abort      # skipped: the quantiser's 32-bit RD sums overflowed
     n_wc_err = sum(1 for x in lines if x.startswith('{"k":"wc_err"'))
     n_wc = sum(1 for x in lines if x.startswith('{"k":"wc",'))
-    if (n_wc_err or n_wc < 500) and not ctx.violations:
+    n_wc_claim = sum(1 for x in lines if x.startswith('{"k":"wc",') and '"coded":1' in x and '"fsz":0' not in x and '"fsz":1,' not in x)
+    ctx.notes["whole_codec_packets_compared"] = n_wc_claim
+    ctx.notes["whole_codec_packets_without_silk_frame"] = n_wc - n_wc_claim
+    if (n_wc_err or n_wc_claim < 500 or 2 * n_wc_claim < n_wc) and not ctx.violations:
         raise vf.Infra("whole-codec driver: %d packets compared, %d encode/decode errors" % (n_wc, n_wc_err))
     if n_ne < 4 * n_ne_abort and not ctx.violations:
         raise vf.Infra("silk_NLSF_encode aborted on %d of %d synthetic inputs: driver inputs no longer inside the quantiser's domain" % (n_ne_abort, n_ne + n_ne_abort))
@@ -402,5 +405,9 @@ META = dict(
                 "exhaustively (21^10 / 21^16 vectors per first-stage entry); the LPC conversion is checked on recorded cases only, not in the "
                 "exhaustive runs. The encoder-side gain model (which index it picks) and the stabiliser on synthetic vectors are reference "
                 "sub-models: a mismatch is SPEC-DRIFT. silk_NLSF_encode is judged only on synthetic inputs for which its 32-bit rate-distortion "
-                "sums stay in range (decided by running it under UBSan/assertions in a child process; the others are counted and skipped). Trusted: TLC, the Json module, my reading of RFC 6716 4.2.7 (no RFC text offline)."),
+                "sums stay in range (decided by running it under UBSan/assertions in a child process; the others are counted and skipped). "
+                "The whole-codec comparison covers the last frame of each packet only (the library keeps nothing else), is claimed only for "
+                "packets that carry their SILK frames (not the TOC-only packet emitted when SILK busts its byte budget) with equal final "
+                "range on both sides, and leaves out the encoder's scratch copies of gain indices and seed (not restored when the rate loop "
+                "falls back to an earlier iteration; the accumulated gain level is compared instead). Trusted: TLC, the Json module, my reading of RFC 6716 4.2.7 (no RFC text offline)."),
 )
